@@ -1,7 +1,61 @@
-(** C08 - conditional assembly assembles exactly the selected branch (examples; theorem below is added with Proofs/CondProofs.v). *)
+(** C08 - conditional assembly assembles exactly the selected branch.
+    Property theorems only; proofs are in Proofs/CondProofs.v. *)
 From Coq Require Import List ZArith NArith String.
 Import ListNotations.
-Require Import AvraV.Model.Base AvraV.Model.Ast AvraV.Model.Passes.
+Require Import AvraV.Model.Base AvraV.Model.Ast AvraV.Model.Lines AvraV.Model.Parse AvraV.Model.Passes AvraV.Proofs.CondProofs.
+
+(** A program is a list of block trees ([nodes]): plain lines and
+    .if/.ifdef/.ifndef [.elif]* [.else] .endif blocks, nested to any depth; a plain line is ANY text
+    that is not one of these six directives - valid statements, text that does not parse at all,
+    .macro, .error, ...  ([wf_nodes] says nothing else).  The tree semantics [ex_nodes] is what the
+    property asks for: a block evaluates the condition of its head; if it holds, exactly the lines of
+    that arm are assembled (recursively) and of the remaining arms nothing but the label, if any, on
+    the next arm's own line; otherwise the next arm is looked at in the same way - an .elif is
+    evaluated only then -, the .else arm is taken when no condition held, and a block without a taken
+    arm contributes nothing.  The bodies of unselected arms are never inspected: [ex_*] does not
+    even look at them, so they may contain anything.  Conditions are evaluated in the state the
+    assembly has reached ([line_step] runs the model's own directive handling).
+
+    THEOREM: for every well-formed program, every state and every result of the tree semantics
+    (a state or an error value; [None] = a selected line opens a macro definition or ends the file,
+    which the tree semantics does not describe), the line loop of the model - skipping by counting
+    nested conditionals - run on the flattened text returns exactly that result. *)
+Theorem C08_select : forall fuel inc ns st o,
+  wf_nodes ns -> ex_nodes fuel inc ns st = Some o ->
+  forall g, (length (fl_nodes ns) < g)%nat -> parse_iter fuel inc g (fl_nodes ns) false st = o.
+Proof. exact select_program. Qed.
+Check C08_select : forall fuel inc ns st o,
+  wf_nodes ns -> ex_nodes fuel inc ns st = Some o ->
+  forall g, (length (fl_nodes ns) < g)%nat -> parse_iter fuel inc g (fl_nodes ns) false st = o.
+Print Assumptions C08_select.
+
+(** the same with an arbitrary continuation (any text may follow the blocks) and for the relational
+    form of the loop *)
+Theorem C08_select_general : forall fuel inc,
+  (forall ns, wf_nodes ns -> forall st o rest res,
+     ex_nodes fuel inc ns st = Some o -> Cont fuel inc o rest res -> Run fuel inc (fl_nodes ns ++ rest) false st res).
+Proof. intros fuel inc. exact (proj1 (proj2 (refines fuel inc))). Qed.
+Print Assumptions C08_select_general.
+
+(** Non-vacuity: a two-level tree with garbage in the unselected arms, its flattening, and the result. *)
+Definition L (n : N) (s : string) : N * str := (n, list_ascii_of_string s).
+Definition sample : nodes :=
+  Ncons (NBlock (L 0 ".if 0") (Ncons (NLine (L 1 "this is !! not assembly")) Nnil)
+           (AElif (L 2 ".elif 1")
+              (Ncons (NLine (L 3 " .db 3, 4"))
+                 (Ncons (NBlock (L 4 ".if 0") (Ncons (NLine (L 5 ".error ""no""")) Nnil) (AEnd (L 6 ".endif"))) Nnil))
+              (AElif (L 7 ".elif 1") (Ncons (NLine (L 8 " .db 7, 8")) Nnil)
+                 (AElse (L 9 ".else") (Ncons (NLine (L 10 "dup: dup: dup:")) Nnil) (L 11 ".endif")))))
+        (Ncons (NLine (L 12 " .db 5, 6")) Nnil).
+Definition st0 := pstate_new (Eval.ctx_new Gen.Devices.default_device).
+Example C08_example :
+  wf_nodes sample /\
+  (exists st', ex_nodes 50 no_include sample st0 = Some (Ok st') /\
+               map (fun x => snd x) (items (last_seg st')) =
+               [IData Db [PE (EConst 3); PE (EConst 4)]; IData Db [PE (EConst 5); PE (EConst 6)]]) /\
+  length (fl_nodes sample) = 13%nat.
+Proof. vm_compute. repeat split; try reflexivity. eexists. split; reflexivity. Qed.
+
 Definition code_of (src : string) : option (list N) :=
   match build_str 200 (list_ascii_of_string src) with Ok b => Some (b_code b) | _ => None end.
 Definition nl := String (Ascii.ascii_of_N 10) EmptyString.
@@ -9,5 +63,7 @@ Example C08_examples :
   code_of (".if 1" ++ nl ++ ".db 1,2" ++ nl ++ ".elif 1" ++ nl ++ ".db 3,4" ++ nl ++ ".else" ++ nl ++ ".db 5,6" ++ nl ++ ".endif" ++ nl)
     = Some [1; 2]%N /\
   code_of (".if 0" ++ nl ++ "garbage !!" ++ nl ++ ".elif 1" ++ nl ++ ".db 3,4" ++ nl ++ ".elif 1" ++ nl ++ ".db 7,8" ++ nl ++ ".endif" ++ nl)
-    = Some [3; 4]%N.
-Proof. vm_compute. split; reflexivity. Qed.
+    = Some [3; 4]%N /\
+  code_of (".if 1" ++ nl ++ ".db 1,2" ++ nl ++ ".if 0" ++ nl ++ ".db 9,9" ++ nl ++ ".endif" ++ nl ++ ".elif 1" ++ nl ++ ".db 3,4" ++ nl ++ ".endif" ++ nl)
+    = Some [1; 2]%N.
+Proof. vm_compute. repeat split; reflexivity. Qed.
